@@ -392,6 +392,14 @@ def _weight_semantic(c, pol):
             return False, (x, got)
     if undecided or not m.ok:
         return None
+    # a weight that is not a number lies outside [0, 1] as well: every ordering test on NaN is false
+    got = m.truth(c, {w.id: float("nan")})
+    if got is None:
+        return None
+    if not pol:
+        got = not got
+    if not got:
+        return False, ("nan", False)
     return True, None
 
 
